@@ -7,6 +7,7 @@ holds after every finite history of vector potentials, any length, for every mes
 import z3
 
 from pyvc import sym, arr
+from pyvc.arr import check_same
 from pyvc.harness import Unit
 from pyvc.meshmodel import compare_blocks
 from pyvc.sym import SI, SR, check, explore
@@ -31,7 +32,7 @@ def _scenario(L, fix_psi, ncalls=3):
         A = M.A_field(f"A{n}")
         ops.set_link_exponents(A)
         tag = names[n]
-        check(f"C10.{tag}.link_exponents_recorded", z3.BoolVal(ops.link_exponents is A))
+        check_same(f"C10.{tag}.link_exponents_recorded", [(ops.link_exponents, A)])
         compare_blocks(f"C10.{tag}.gradient", ops.psi_gradient.blocks, oc.gradient_spec(M, A), [], oc.edge_ax(M))
         compare_blocks(f"C10.{tag}.laplacian", ops.psi_laplacian.blocks, oc.laplacian_spec(M, A, pinned=fix_psi), [], oc.edge_ax(M))
 
